@@ -124,7 +124,7 @@ func c10Count(r *vu.RNG) int {
 	case 2:
 		return 62 + r.Intn(5) // around the one-byte/two-byte compact boundary of the index
 	case 3:
-		return 100 + r.Intn(200)
+		return 100 + r.Intn(120)
 	default:
 		return 2 + r.Intn(20)
 	}
